@@ -1,4 +1,5 @@
 """C07  Refinement never loses or mis-associates data and selects what it documents."""
+import re
 from tsg.facts import DB, strip, txt, callee, call_args, call_object, walk, const_val, callee_node
 from tsg.flow import var_of, base_var, cond_edges_dominating, is_reachable
 from tsg.typestate import member_writes, member_of, must_pass_after, must_pass_before
@@ -256,6 +257,35 @@ def run(chk):
                     ok = any("Data2D<int>" in (strip(q["c"][0]) or {}).get("t", "") for q in conv)
                 chk.ob("C07-D3.collector", fn.key, "result is MultiIndexSet(Data2D<int>) (sorted, duplicate free)", bool(ok), fn.loc(r), txt(decl) if decl else "")
 
+    # sibling appends: within one function, appends of the same index expression to the same destination are filtered by the same membership tests
+    chk.rule("C07-D3.siblings", "within one function every append of the same index expression to the same candidate container is guarded by the same set of `<set>.missing(index)` tests "
+                                "(a test kept on the parent path and dropped on the step-parent path lets loaded points back into `needed`)")
+    nsib = 0
+    libfns = [f for fs_ in db.load_all().values() for f in fs_ if not f.file.startswith("@verif") and "test" not in f.file.lower() and "Example" not in f.file]
+    for fn in libfns:
+        groups = {}
+        for call in fn.calls(into_lambda=False):
+            if (callee(call) or "").endswith("::appendStrip") and is_reachable(fn, call) and call_args(call):
+                dest = txt(strip(call_object(call)) or {})
+                idx = txt(strip(call_args(call)[0]))
+                groups.setdefault((dest, idx), []).append(call)
+        for (dest, idx), calls in groups.items():
+            if len(calls) < 2:
+                continue
+            gs = []
+            for c in calls:
+                edges = [(txt(strip(e)), tr) for e, tr in cond_edges_dominating(fn, c)]
+                gs.append(frozenset(t for t, tr in edges if tr and t.endswith(".missing(%s)" % idx) and re.match(r"^[A-Za-z_][\w>.\-]*\.missing\(", t) and "&&" not in t and "||" not in t))
+            if not any(gs):
+                continue
+            nsib += 1
+            chk.saw(fn)
+            union = frozenset().union(*gs)
+            bad = [(c, union - g) for c, g in zip(calls, gs) if g != union]
+            chk.ob("C07-D3.siblings", fn.key, "%d appends of `%s` to `%s`" % (len(calls), idx, dest), not bad, fn.loc(calls[0]),
+                   "; ".join("append @%d lacks %s" % (c.get("l", 0), sorted(m)) for c, m in bad[:2]) if bad else "all guarded by %s" % sorted(union), "identical membership guards")
+    chk.floor("C07-D3.siblings", nsib, 4, "functions with sibling candidate appends")
+
     # ------------------------------------------------------------------ D4
     def skip_reinit(f, call):
         return False
@@ -434,6 +464,97 @@ def run(chk):
                "early return under tolerance == 0: %s, map filled with 1: %s" % (early, fill1))
         okops = set(ops) <= {"<=", ">"} and bool(ops)
         chk.ob("C07-D6.tolerance", k, "equality with the tolerance counts as small", okops, fn.where, "comparison operators against tolerance: %s" % (ops,), "only `x <= tolerance` / `x > tolerance`")
+
+    # ------------------------------------------------------------------ D7 strips whose width depends on the selected output
+    chk.rule("C07-D7.strip", "a strip of a 2-D view whose width is `(output == -1) ? num_outputs : 1` is subscripted only inside that width: on the single-output edge only entry 0, "
+                             "otherwise a loop variable bounded by the width (the scale correction and the per-direction values of the selected output are addressed this way)")
+    nstrip = 0
+    by_key = {}
+    for fn in fns:
+        by_key.setdefault(fn.key, fn)
+    for fn in fns:
+        loc = {v["did"]: v for v in fn.locals().values() if "did" in v}
+        if fn.d.get("islambda") and "::lambda@" in fn.key:
+            # captured locals of the enclosing function (the lambda has its own CFG, the views live outside)
+            outer = by_key.get(fn.key.rsplit("::lambda@", 1)[0])
+            if outer is not None:
+                for v in outer.locals().values():
+                    if "did" in v:
+                        loc.setdefault(v["did"], v)
+
+        def width_of(recv):
+            """(stride variable name, cond text, A, B) for a local 2-D view constructed with a stride that is a conditional"""
+            recv = strip(recv)
+            if recv is None or recv.get("k") != "DeclRefExpr" or recv.get("did") not in loc:
+                return None
+            d = loc[recv["did"]]
+            if "Wrapper2D" not in d.get("t", "") and "Data2D" not in d.get("t", ""):
+                return None
+            ini = [c for c in d.get("c", []) if isinstance(c, dict)]
+            ctor = next((q for q in walk(ini[0]) if q.get("k") in ("CXXConstructExpr", "CXXTemporaryObjectExpr")), None) if ini else None
+            args = [c for c in (ctor or {}).get("c", []) if isinstance(c, dict)]
+            if not args:
+                return None
+            s0 = strip(args[0])
+            if s0 is None or s0.get("k") != "DeclRefExpr" or s0.get("did") not in loc:
+                return None
+            sd = loc[s0["did"]]
+            sini = [c for c in sd.get("c", []) if isinstance(c, dict)]
+            co = strip(sini[0]) if sini else None
+            if co is None or co.get("k") != "ConditionalOperator":
+                return None
+            return sd.get("name"), txt(strip(co["c"][0])), strip(co["c"][1]), strip(co["c"][2])
+
+        strips = {}
+        for did, v in loc.items():
+            ini = [c for c in v.get("c", []) if isinstance(c, dict)]
+            if not ini or "*" not in v.get("t", ""):
+                continue
+            i0 = strip(ini[0])
+            if i0 is not None and i0.get("k") == "CXXMemberCallExpr" and (callee(i0) or "").endswith(("::getStrip", "::getIStrip", "::getCStrip")):
+                w = width_of(call_object(i0))
+                if w:
+                    strips[did] = w
+        for q in fn.walk(into_lambda=False):
+            if q.get("k") != "ArraySubscriptExpr" or not is_reachable(fn, q):
+                continue
+            b = strip(q["c"][0])
+            w = None
+            if b is not None and b.get("k") == "DeclRefExpr" and b.get("did") in strips:
+                w = strips[b["did"]]
+            elif b is not None and b.get("k") == "CXXMemberCallExpr" and (callee(b) or "").endswith(("::getStrip", "::getIStrip", "::getCStrip")):
+                w = width_of(call_object(b))
+            if not w:
+                continue
+            svar, ctext, A, B = w
+            nstrip += 1
+            chk.saw(fn)
+            eff_w, how = None, "width %s" % svar
+            for cnd, tr in cond_edges_dominating(fn, q):
+                if txt(strip(cnd)) == ctext:
+                    eff_w = A if tr else B
+                    how = "on the %s edge of `%s` the width is %s" % ("true" if tr else "false", ctext, txt(eff_w))
+            idx = strip(q["c"][1])
+            ok, why = False, ""
+            cw = const_val(eff_w) if eff_w is not None else None
+            if idx.get("k") == "IntegerLiteral":
+                v = int(idx["val"])
+                ok = v == 0 or (cw is not None and v < cw)
+                why = "constant %d" % v
+            elif idx.get("k") == "DeclRefExpr":
+                lp = next((a for a in fn.ancestors(q) if a.get("k") == "ForStmt" and a.get("cond") is not None and
+                           strip(a["cond"]).get("k") == "BinaryOperator" and strip(a["cond"]).get("op") == "<" and var_of(strip(a["cond"])["c"][0]) == idx.get("did")), None)
+                if lp is not None:
+                    bnd = strip(strip(lp["cond"])["c"][1])
+                    bt = txt(bnd)
+                    ok = bt == svar or (eff_w is not None and bt == txt(eff_w)) or (cw is not None and const_val(bnd) is not None and const_val(bnd) <= cw)
+                    why = "loop variable %s < %s" % (idx.get("var"), bt)
+                else:
+                    why = "`%s` is not a loop variable bounded by the width" % txt(idx)
+            else:
+                why = "index `%s` is not of a decidable form" % txt(idx)
+            chk.ob("C07-D7.strip", fn.key, "`%s` @%d" % (txt(q)[:40], q.get("l", 0)), ok, fn.loc(q), "%s; %s" % (how, why), "index inside the strip")
+    chk.floor("C07-D7.strip", nstrip, 12, "subscripts of output-dependent strips")
 
     return ("Static rule discharge over the five grid classes (every instantiation), the construction data classes and the API layer. D1: path rules on the CFG tying every "
             "value merge to its index merge and to its emptiness guards; D3: classification of every assignment to `needed` and guard-dominance for candidate appends; "
